@@ -134,7 +134,7 @@ def classify(P, f, s):
             return "G2", "`%s(..)` on the result of `%s` called after start_idx was read leaves the loop first (%s)" % (
                 n.split("::")[-1], callee, f.loc(sw["span"]))
     # G3: an unconditional successful pop between the read of start_idx and the assertion
-    pops = successful_pop_blocks(f)
+    pops = successful_pop_blocks(f) | consuming_call_blocks(P, f)
     if pops:
         r = D.reach_from(f, [Dbb], avoid_blocks=pops)
         if S["bb"] not in r:
@@ -204,3 +204,77 @@ def pop_unpop(P, reach, res):
             res.bad("POP-UNPOP", key, "`unpop()` in `%s` is not paired with a successful pop() of the same function: %s "
                     "(it can un-consume a token the caller consumed, which breaks the progress argument of every loop above it)"
                     % (f.path, why), f.loc(t.get("fn_span")))
+
+
+# ------------------------------------------------------------------ callee known to consume the peeked token
+_REQ = ("parser::require_token", "parser::check_required_token", "parser::required_token_ok")
+
+
+def _const_str(f, op):
+    r = f.root_of(op)
+    if r[0] == "const":
+        c = r[1]
+        if "s" in c:
+            return c["s"]
+        t = c.get("text", "")
+        if t.startswith('"') and t.endswith('"'):
+            return t[1:-1]
+    return None
+
+
+def first_required_literal(g):
+    """the literal L such that the first thing g does with the token stream is require_token(tokens, L)."""
+    if g.argc < 1:
+        return None
+    seen = set()
+    b = 0
+    for _ in range(40):
+        if b in seen:
+            return None
+        seen.add(b)
+        t = g.blocks[b]["term"]
+        if t["t"] == "call":
+            n = M.callee_name(t) or ""
+            touches = any(PI._tokens_local(g, a) == 1 for a in t["args"])
+            if touches:
+                if n in _REQ and len(t["args"]) >= 3:
+                    return _const_str(g, t["args"][2])
+                return None
+            if t["target"] is None:
+                return None
+            b = t["target"]
+        elif t["t"] in ("goto", "drop", "assert"):
+            b = t["target"]
+        else:
+            return None
+    return None
+
+
+def consuming_call_blocks(P, f):
+    """blocks calling a parser function that starts with require_token(L), under a test that the next token's text == L."""
+    out = set()
+    eqs = []
+    for sw in D.bool_switches(f):
+        r = sw["root"]
+        if r[0] == "call" and (M.callee_name(r[2]) or "").endswith(">::eq") and "PartialEq" in (M.callee_name(r[2]) or "") and sw["true"] is not None:
+            lit = None
+            for a in r[2]["args"]:
+                lit = lit or _const_str(f, a)
+            if lit is not None:
+                eqs.append((sw["bb"], sw["true"], lit))
+        if r[0] == "call" and (M.callee_name(r[2]) or "").endswith("parser::peeked_symbol_is") and sw["true"] is not None and len(r[2]["args"]) > 1:
+            lit = _const_str(f, r[2]["args"][1])
+            if lit is not None:
+                eqs.append((sw["bb"], sw["true"], lit))
+    for bi, t in f.calls():
+        n = M.callee_name(t)
+        g = P.funcs.get(n) if n else None
+        if g is None or not n.startswith("parser::"):
+            continue
+        L = first_required_literal(g)
+        if L is None:
+            continue
+        for (sb, tt, lit) in eqs:
+            if lit == L and bi in D.edge_dominated(f, sb, tt):
+                out.add(bi)
+    return out
